@@ -109,7 +109,38 @@ func fourWays1(part *ev.Part, s pb.Snap, sizeHint int, label string, classes map
 			}
 		}
 	}
+	// (7) two encoders in one process (one Syncer per configured database): another snapshot is encoded completely
+	// at every Write call of this snapshot's WriteTo; the bytes written must still decode to this snapshot
+	if part.Executions%3 == 0 || len(s.DBIs) >= 2 {
+		other := pb.Snap{FV: 3, CV: 2, Meta: pb.Meta{GenerationID: "OTHER-GENERATION", InstanceID: "other-instance", Hostname: "other-host", DatabaseName: "other-database", LmdbTxnID: 987654321, TimestampNano: 1234567890123456789},
+			DBIs: []pb.DBI{{Name: "other-dbi", Flags: 8, Entries: []pb.KV{{Key: []byte("other-key"), Val: rep('o', 300), TS: 99, Flags: 1}}}}}
+		otherOurs := other.ToOurs(0)
+		iw := &interleavingWriter{during: func() {
+			var ob bytes.Buffer
+			_, _ = otherOurs.WriteTo(&ob)
+		}}
+		part.Transitions++
+		if _, err := s.ToOurs(sizeHint).WriteTo(iw); err != nil {
+			r.Violate(part.Name, "writeto-error", err.Error(), repl)
+		} else if g8, err := pb.DecodeRef(iw.buf.Bytes()); err != nil || g8.String() != want {
+			r.Violate(part.Name, "concurrent-encoders-corrupt-each-other", fmt.Sprintf("%s: another snapshot encoded at every Write of this one's WriteTo (%d writes): err=%v\n got  %s\n want %s", label, iw.writes, err, trunc(g8.String()), trunc(want)), repl)
+		}
+	}
 	classes[fmt.Sprintf("%d/%v", len(s.DBIs), len(enc) > 127)] = true
+}
+
+// interleavingWriter runs `during` before every Write: whatever another encoder in the same process would do
+// between two writes of this one.
+type interleavingWriter struct {
+	buf    bytes.Buffer
+	during func()
+	writes int
+}
+
+func (w *interleavingWriter) Write(p []byte) (int, error) {
+	w.writes++
+	w.during()
+	return w.buf.Write(p)
 }
 
 func trunc(s string) string {
